@@ -252,12 +252,18 @@ pub fn check_history(h: &Hist) -> Result<(bool, Vec<&'static str>), Failure> {
                         Some(a) => Some(a.uc.as_ref().and_then(|u| u.manifest.as_ref()).map(|mm| mm.version.clone()).unwrap_or_else(|| "UNKNOWN".to_string())),
                         None => m.target.clone(),
                     };
+                    // a system-app update whose manifest names no version has no target version to record: the library
+                    // writes a placeholder; any value that cannot be mistaken for a real version (or none) is accepted,
+                    // a left-over real version of an earlier install is not
+                    let versionless = matches!(&offered_sys, Some(a) if a.uc.as_ref().and_then(|u| u.manifest.as_ref()).is_none());
                     if let Some(k) = log[i..seg_end].iter().position(|o| matches!(o, Op::RebootNeeded { .. })) {
                         let c = decode(&committed_at(log, i + k, &h.script));
-                        if c.finish_us != Some(us(finish)) || c.target != want_target {
+                        let target_ok = if versionless { c.target.as_ref().map(|v| v.parse::<omaha_client::version::Version>().is_err()).unwrap_or(true) } else { c.target == want_target };
+                        let want_target = if versionless && target_ok { c.target.clone() } else { want_target };
+                        if c.finish_us != Some(us(finish)) || !target_ok {
                             return Err(failure(
                                 "finish-record-not-durable-before-reboot",
-                                format!("when the reboot question is reached, committed storage holds finish time {:?} / target version {:?}; it must already hold {:?} / {:?} (system app {sys_id:?})", c.finish_us, c.target, Some(us(finish)), want_target),
+                                format!("when the reboot question is reached, committed storage holds finish time {:?} / target version {:?}; it must already hold {:?} / {} (system app {sys_id:?})", c.finish_us, c.target, Some(us(finish)), if versionless { "no real version: the manifest names none, a left-over version of an earlier install would be reported against the wrong update".to_string() } else { format!("{want_target:?}") }),
                                 h,
                                 around,
                             ));
